@@ -550,36 +550,35 @@ def getMaxComponentDepth(
         return maxComponentDepth
 
     if visited is None:
-        visited = set()
+        # maps the name of each composite already explored to the height of its
+        # own tree, so that a glyph reached again through a different path still
+        # contributes its full height
+        visited = {}
     if rec_stack is None:
         rec_stack = []
 
-    assert glyph.name not in visited
-    visited.add(glyph.name)
     rec_stack.append(glyph.name)
 
-    maxComponentDepth += 1
-
-    initialMaxComponentDepth = maxComponentDepth
+    height = 1
     for component in glyph.components:
         try:
             baseGlyph = glyphSet[component.baseGlyph]
         except KeyError:
             continue
-        if component.baseGlyph not in visited:
-            componentDepth = getMaxComponentDepth(
-                baseGlyph, glyphSet, initialMaxComponentDepth, visited, rec_stack
-            )
-            maxComponentDepth = max(maxComponentDepth, componentDepth)
-        elif component.baseGlyph in rec_stack:
+        if component.baseGlyph in rec_stack:
             raise InvalidFontData(
                 f"cyclical component reference:"
                 f" {' -> '.join(rec_stack)} => {component.baseGlyph}"
             )
+        if component.baseGlyph not in visited:
+            visited[component.baseGlyph] = getMaxComponentDepth(
+                baseGlyph, glyphSet, 0, visited, rec_stack
+            )
+        height = max(height, 1 + visited[component.baseGlyph])
 
     rec_stack.pop()
 
-    return maxComponentDepth
+    return maxComponentDepth + height
 
 
 def location_to_string(location):
